@@ -209,6 +209,10 @@ def judge(case):
                     d = None
             if d:
                 fails.append(('clex-mod', d))
+    if fails:
+        tag = gen_c.construct_tags(case.src)        # (part of the signature, see gen_c.construct_tags)
+        for _rel, d_ in fails:
+            d_['first_in'] = (str(d_.get('first_in') or '') + tag).strip() or None
     mods = sorted(n for n in case.cfgd if n.startswith('mod_'))
     info = {'nontrivial': fired, 'counts': counts,
             'classes': ['lang:' + case.lang, 'origin:' + (case.origin or {}).get('kind', '?'), 'fired' if fired else 'no-token-change'] +
